@@ -1,7 +1,7 @@
 (* C13 - faults on valid streams: a bad rcode / question in any message that is read, truncated
    AXFR; and what a completed transfer guarantees whatever was received. *)
 From DV Require Import Base.Prelude Model.XfrM Proofs.XfrSets Proofs.XfrSpec Proofs.XfrZone Proofs.XfrDiff
-  Proofs.XfrSafety Proofs.XfrBasic Proofs.XfrRun Proofs.XfrIxfr Proofs.XfrAxfr.
+  Proofs.XfrSafety Proofs.XfrBasic Proofs.XfrRun Proofs.XfrIxfr Proofs.XfrAxfr Proofs.XfrPerm Proofs.XfrOrder.
 
 Definition bump (n : nat) (r : result * nat) : result * nat := (fst r, (n + snd r)%nat).
 
@@ -420,4 +420,164 @@ Proof.
             (Some (single (soa_rr (last chain v0))))) true)
     with (ist true z0 z0 (v_serial v0) (single (soa_rr (last chain v0))) true false).
   rewrite Hlp, Hudp, Hdp. cbn [andb negb cont]. rewrite Hpub. reflexivity.
+Qed.
+
+(* ---- corrupt serial ---- *)
+Lemma app_mid_split : forall {A} (a X c : list A) x rest, a ++ X = c ++ x :: rest ->
+  (exists c', c = a ++ c' /\ X = c' ++ x :: rest) \/ (exists a', a = c ++ x :: a').
+Proof.
+  intros A. induction a as [|y a IH]; intros X c x rest H.
+  - left. exists c. auto.
+  - destruct c as [|z c]; cbn [app] in H.
+    + inversion H; subst. right. exists a. reflexivity.
+    + inversion H; subst. destruct (IH _ _ _ _ H2) as [[c' [-> ->]]|[a' ->]].
+      * left. exists c'. auto.
+      * right. exists a'. reflexivity.
+Qed.
+
+Lemma loop_app_error : forall l1 s s1 y l2 s' e,
+  loopn s l1 = (s1, None) -> (forall l, step l s1 y = (s', Some e)) ->
+  loop s (l1 ++ y :: l2) = (s', Some e).
+Proof.
+  induction l1 as [|r l1 IH]; intros s s1 y l2 s' e Hl Hy; cbn [app loop loopn] in *.
+  - inversion Hl; subst. rewrite Hy. reflexivity.
+  - assert (E : match l1 ++ y :: l2 with [] => true | _ :: _ => false end = false) by (destruct l1; reflexivity).
+    rewrite E. destruct (step false s r) as [sa [e0|]]; [discriminate|]. eapply IH; eassumption.
+Qed.
+
+(* an error that is certain once the records c have been processed, wherever the message
+   boundaries are *)
+Lemma cont_error_after : forall ws a s c x rest s1 s' e,
+  running s -> Forall (header_ok (rdtype s)) ws ->
+  a ++ concat (map w_records ws) = c ++ x :: rest ->
+  loopn s (map single c) = (s1, None) -> done s1 = false ->
+  (forall l, step l s1 (single x) = (s', Some e)) ->
+  exists n, cont true (loop s (map single a)) ws = (Error e (pub s'), n).
+Proof.
+  induction ws as [|w ws IH]; intros a s c x rest s1 s' e Hrun Hh Hcat Hl Hd1 Hx.
+  - cbn [map concat] in Hcat. rewrite app_nil_r in Hcat. subst a.
+    rewrite map_app. cbn [map]. rewrite (loop_app_error _ _ _ _ _ _ _ Hl Hx). cbn [cont]. eauto.
+  - apply app_mid_split in Hcat. destruct Hcat as [[c' [-> Hrest]]|[a' ->]].
+    + rewrite map_app, loopn_app in Hl.
+      destruct (loopn s (map single a)) as [sa [e0|]] eqn:Ha; [discriminate|].
+      pose proof (loopn_none_not_done _ _ _ Hl Hd1) as Hda.
+      pose proof (loop_loopn _ _ _ Ha) as Hla. rewrite Hla. cbn [cont]. rewrite Hda.
+      pose proof (running_after_loop _ _ _ Hrun Hla Hda) as Hra.
+      assert (Hrt : rdtype sa = rdtype s) by (apply loop_inv in Hla; tauto).
+      inversion Hh as [|? ? Hw Hws]; subst.
+      rewrite drive_cons. unfold from_wire. rewrite group_true.
+      rewrite process_running; [|exact Hra|apply Hw|rewrite Hrt; apply Hw].
+      cbn [m_answer]. cbn [map concat] in Hrest.
+      destruct (IH (w_records w) sa c' x rest s1 s' e) as [n Hn]; auto.
+      { rewrite Hrt. exact Hws. }
+      rewrite Hn. eauto.
+    + rewrite map_app. cbn [map]. rewrite (loop_app_error _ _ _ _ _ _ _ Hl Hx). cbn [cont]. eauto.
+Qed.
+
+Lemma step_bad_base : forall l u p tz ser vn e bad,
+  v_soa bad <> v_soa vn -> v_serial bad <> ser ->
+  step l (ist u p tz ser (single (soa_rr vn)) e false) (single (soa_rr bad)) =
+  (ist u p tz ser (single (soa_rr vn)) false true, Some eBaseMismatch).
+Proof.
+  intros l u p tz ser vn e bad Hsoa Hser. unfold step, ist. cbn [done txn incremental delmode soa set_delmode negb].
+  change ((s_type (single (soa_rr bad)) =? tSOA) && (s_name (single (soa_rr bad)) =? origin)) with true. cbv iota.
+  rewrite soa_eqb. apply Z.eqb_neq in Hsoa. rewrite Hsoa. cbn [andb].
+  rewrite soa_serial_single. cbn [incremental set_expecting set_delmode serial delmode].
+  apply Z.eqb_neq in Hser. rewrite Hser. reflexivity.
+Qed.
+
+(* Corrupt serial: after any number of correct difference sequences (pre, possibly none), the next
+   SOA - the start of the next deletion section or the final SOA - carries a serial that is not the
+   current one: "IXFR base serial mismatch", zone untouched.  (bad is any SOA record, given as the
+   SOA of a pseudo-version; rest is whatever follows.) *)
+Theorem ixfr_corrupt_serial_rejected : forall v0 pre vn bad rest z0 ws,
+  version_wf v0 -> Forall version_wf pre -> zeq z0 (zone_of v0) ->
+  (forall v, In v (v0 :: removelast pre) -> v_soa v <> v_soa vn) ->
+  v_serial vn <> v_serial v0 -> serial_lt (v_serial vn) (v_serial v0) = false ->
+  v_soa bad <> v_soa vn -> v_serial bad <> v_serial (last pre v0) ->
+  chunking tIXFR (soa_rr vn :: diff_seqs v0 pre ++ soa_rr bad :: rest) ws ->
+  exists n, inbound_xfr z0 tIXFR (Some (v_serial v0)) false ws = (Error eBaseMismatch z0, n).
+Proof.
+  intros v0 pre vn bad rest z0 ws Hv0 Hpre Hz Hd Hne Hlt Hbs Hbser Hch.
+  apply chunking_first in Hch. destruct Hch as (w & ws' & a & -> & Hr & Hw & Hws & Hcat).
+  unfold inbound_xfr. rewrite init_ixfr. cbn [Z.eqb tIXFR Pos.eqb]. rewrite drive_cons.
+  rewrite (first_message_ixfr z0 (v_serial v0) false w (soa_rr vn) a Hw Hr) by (split; reflexivity).
+  cbv zeta. change (r_data (soa_rr vn) mod two32) with (v_serial vn).
+  apply Z.eqb_neq in Hne. rewrite Hne, Hlt. cbn [andb]. rewrite after_tcp by reflexivity.
+  assert (Hrun : running (ist false z0 z0 (v_serial v0) (single (soa_rr vn)) true false)).
+  { repeat split; try reflexivity; discriminate. }
+  assert (RUN : exists tz' e', loopn (ist false z0 z0 (v_serial v0) (single (soa_rr vn)) true false)
+                                 (map single (diff_seqs v0 pre)) =
+                               (ist false z0 tz' (v_serial (last pre v0)) (single (soa_rr vn)) e' false, None)).
+  { destruct pre as [|p1 pre'].
+    - exists z0, true. reflexivity.
+    - destruct (chain_run false (p1 :: pre') z0 z0 vn v0 true) as [tz' [Hl _]]; try assumption; [discriminate| |].
+      + intros k Hk. rewrite Hz, look_zone_of. apply key_eqb_neq in Hk. rewrite Hk. reflexivity.
+      + exists tz', false. exact Hl. }
+  destruct RUN as [tz' [e' Hl]].
+  destruct (cont_error_after ws' a _ (diff_seqs v0 pre) (soa_rr bad) rest _ _ eBaseMismatch Hrun Hws Hcat Hl eq_refl
+              (fun l => step_bad_base l false z0 tz' (v_serial (last pre v0)) vn e' bad Hbs Hbser)) as [n Hn].
+  exists n. exact Hn.
+Qed.
+
+(* ---- a deletion that does not apply (duplicate of a deleted record, corrupt owner / type /
+        rdata of a deleted record, ...) ---- *)
+
+Lemma fd_zeq_dels : forall x a b a', zeq a b -> dels a x = Some a' ->
+  exists b', dels b x = Some b' /\ zeq b' a'.
+Proof.
+  intros x a b a' H Hd.
+  assert (F : forall k, fd k (look b k) x = Some (look a' k)).
+  { intros k. rewrite <- H. apply look_dels_fd, Hd. }
+  destruct (dels_fd_complete x b) as [b' Hb].
+  { intros k. rewrite F. discriminate. }
+  exists b'. split; [exact Hb|]. intros k.
+  pose proof (look_dels_fd _ _ _ Hb k) as G. rewrite F in G. inversion G; reflexivity.
+Qed.
+
+Theorem ixfr_bad_delete_rejected : forall v0 pre vn D1 r z1 rest z0 ws,
+  version_wf v0 -> Forall version_wf pre -> zeq z0 (zone_of v0) ->
+  (forall v, In v (v0 :: removelast pre ++ [last pre v0]) -> v_soa v <> v_soa vn) ->
+  v_serial vn <> v_serial v0 -> serial_lt (v_serial vn) (v_serial v0) = false ->
+  Forall plain D1 -> plain r ->
+  dels (zone_of (last pre v0)) D1 = Some z1 -> del1 (look z1 (rkey r)) (r_data r) = None ->
+  chunking tIXFR (soa_rr vn :: diff_seqs v0 pre ++ soa_rr (last pre v0) :: D1 ++ r :: rest) ws ->
+  exists n, inbound_xfr z0 tIXFR (Some (v_serial v0)) false ws = (Error eDeleteNotExact z0, n).
+Proof.
+  intros v0 pre vn D1 r z1 rest z0 ws Hv0 Hpre Hz Hd Hne Hlt HD1 Hr Hdels Hdel Hch.
+  apply chunking_first in Hch. destruct Hch as (w & ws' & a & -> & Hrec & Hw & Hws & Hcat).
+  unfold inbound_xfr. rewrite init_ixfr. cbn [Z.eqb tIXFR Pos.eqb]. rewrite drive_cons.
+  rewrite (first_message_ixfr z0 (v_serial v0) false w (soa_rr vn) a Hw Hrec) by (split; reflexivity).
+  cbv zeta. change (r_data (soa_rr vn) mod two32) with (v_serial vn).
+  apply Z.eqb_neq in Hne. rewrite Hne, Hlt. cbn [andb]. rewrite after_tcp by reflexivity.
+  assert (Hrun : running (ist false z0 z0 (v_serial v0) (single (soa_rr vn)) true false)).
+  { repeat split; try reflexivity; discriminate. }
+  set (vi := last pre v0) in *.
+  assert (RUN : exists tz' e', loopn (ist false z0 z0 (v_serial v0) (single (soa_rr vn)) true false)
+                                 (map single (diff_seqs v0 pre)) =
+                               (ist false z0 tz' (v_serial vi) (single (soa_rr vn)) e' false, None)
+                               /\ zeq tz' (zone_of vi)).
+  { destruct pre as [|p1 pre'].
+    - exists z0, true. split; [reflexivity|exact Hz].
+    - destruct (chain_run false (p1 :: pre') z0 z0 vn v0 true) as [tz' [Hl Hz']]; try assumption; [discriminate| | |].
+      + intros v Hin. apply Hd. destruct Hin as [<-|Hin]; [left; reflexivity|right; apply in_or_app; left; exact Hin].
+      + intros k Hk. rewrite Hz, look_zone_of. apply key_eqb_neq in Hk. rewrite Hk. reflexivity.
+      + exists tz', false. split; [exact Hl|exact Hz']. }
+  destruct RUN as [tz' [e' [Hl Hz']]].
+  destruct (fd_zeq_dels D1 _ tz' z1 (zeq_sym _ _ Hz') Hdels) as [z1' [Hd1' Hz1]].
+  assert (Hvi : v_soa vi <> v_soa vn).
+  { apply Hd. right. apply in_or_app. right. left. reflexivity. }
+  (* the records up to the bad deletion run without error *)
+  assert (Hl2 : loopn (ist false z0 z0 (v_serial v0) (single (soa_rr vn)) true false)
+                  (map single (diff_seqs v0 pre ++ soa_rr vi :: D1)) =
+                (ist false z0 z1' (v_serial vi) (single (soa_rr vn)) false true, None)).
+  { rewrite map_app, loopn_app, Hl. cbn [map loopn]. rewrite step_del_start by exact Hvi.
+    unfold ist at 1. rewrite (loopn_dels _ _ _ z1') by assumption. reflexivity. }
+  assert (Hbad : forall l, step l (ist false z0 z1' (v_serial vi) (single (soa_rr vn)) false true) (single r) =
+                           (ist false z0 z1' (v_serial vi) (single (soa_rr vn)) false true, Some eDeleteNotExact)).
+  { intros l. unfold ist. rewrite step_plain_del by exact Hr. rewrite Hz1, Hdel. reflexivity. }
+  assert (Hcat2 : a ++ concat (map w_records ws') = (diff_seqs v0 pre ++ soa_rr vi :: D1) ++ r :: rest).
+  { rewrite Hcat, <- app_assoc. reflexivity. }
+  destruct (cont_error_after ws' a _ _ r rest _ _ eDeleteNotExact Hrun Hws Hcat2 Hl2 eq_refl Hbad) as [n Hn].
+  exists n. exact Hn.
 Qed.
